@@ -65,7 +65,7 @@ def snapshot(m):
     return {k: (None if n.value is None else float(np.sum(np.asarray(n.value, dtype=np.float64))), bool(n.outdated)) for k, n in m.nodes.items()}
 
 
-def run_history(col, rng, spec, length):
+def run_history(col, rng, spec, length, script=None):
     values = {n: rng.choice([0.5, -1.0, 2.0]) for _, n in spec.assignable()}
     counters = {}
     m = spec.build(values, counters)
@@ -85,15 +85,15 @@ def run_history(col, rng, spec, length):
                     todo.append(o)
         return out
 
-    for step in range(length):
-        ops = ["assign", "toggle", "update", "targeted", "save"] + (["restore"] if saved is not None else [])
-        op = rng.choice(ops)
+    for step in range(length if script is None else len(script)):
+        ops = ["assign", "toggle", "update", "targeted", "save", "clear"] + (["restore"] if saved is not None else [])
+        op = rng.choice(ops) if script is None else script[step][0]
         counters.clear()
         updated = False
         target_anc = None
         if op == "assign":
-            kind, name = rng.choice(spec.assignable())
-            v = rng.choice([0.25, 1.5, -2.0, 3.0])
+            kind, name = rng.choice(spec.assignable()) if script is None else next(a for a in spec.assignable() if a[1] == script[step][1])
+            v = rng.choice([0.25, 1.5, -2.0, 3.0]) if script is None else script[step][2]
             values[name] = v
             (m.vars[name] if kind == "strong" else m.nodes[name]).value = np.float32(v)
             dirty |= {d for d in descendants(name) if isinstance(m.nodes[d], (lsl.Calc, lsl.Dist)) and not isinstance(m.nodes[d], lsl.TransientCalc)}
@@ -109,7 +109,7 @@ def run_history(col, rng, spec, length):
             if any(n.outdated for n in m.nodes.values()):
                 return {"sig": "native::coherence::full_update_leaves_outdated", "what": "a node is outdated after a full update", "input": {"graph": spec.nodes, "history": hist}}
         elif op == "targeted":
-            name = rng.choice([n for n in m.nodes if not n.startswith("_model_") or n == "_model_log_prob"])
+            name = rng.choice([n for n in m.nodes if not n.startswith("_model_") or n == "_model_log_prob"]) if script is None else script[step][1]
             m.update(name)
             updated = True
             hist.append(("update", name))
@@ -123,6 +123,14 @@ def run_history(col, rng, spec, length):
             if any(m.nodes[a].outdated for a in anc):
                 return {"sig": "native::coherence::targeted_update", "what": f"after update({name!r}) an ancestor is still outdated: {[a for a in anc if m.nodes[a].outdated]}",
                         "input": {"graph": spec.nodes, "history": hist}}
+        elif op == "clear":
+            cand = [n for n, nd in m.nodes.items() if isinstance(nd, (lsl.Calc, lsl.Dist)) and not isinstance(nd, lsl.TransientCalc) and not n.startswith("_model_")]
+            if not cand:
+                continue
+            name = rng.choice(cand) if script is None else script[step][1]
+            m.nodes[name].clear_state()  # public: value None, outdated
+            dirty.add(name)
+            hist.append(("clear_state", name))
         elif op == "save":
             saved = (m.state, dict(values), set(dirty))
             hist.append(("save",))
@@ -154,10 +162,35 @@ def run_history(col, rng, spec, length):
     return None
 
 
+class JoinSpec(Spec):
+    """s0 -> c (cached), join = f(c, s1) (cached), y ~ N(join, .) weak variable with distribution; s1 is not an ancestor of c"""
+
+    def __init__(self):
+        self.nodes = [("strong", "s0", [], True), ("strong", "s1", [], False), ("calc", "n0", ["s0"], 3), ("calc", "n1", ["n0", "s1"], 5), ("weakdist", "n2", ["n1"], 2)]
+
+
+SCRIPTS = [
+    # outdated nodes left behind while auto-update is switched on again, then an assignment elsewhere
+    [("toggle",), ("assign", "s0", 1.5), ("toggle",), ("assign", "s1", -2.0)],
+    [("toggle",), ("assign", "s0", 1.5), ("save",), ("toggle",), ("update",), ("restore",), ("assign", "s1", 3.0)],
+    [("toggle",), ("assign", "s0", 0.25), ("assign", "s1", 3.0), ("targeted", "n0"), ("toggle",), ("assign", "s1", 1.5)],
+    [("toggle",), ("assign", "s1", 0.25), ("toggle",), ("assign", "s0", 3.0), ("update",)],
+    # a snapshot with outdated nodes restored after the model was fully updated in between, then a full update
+    [("toggle",), ("assign", "s0", 1.5), ("save",), ("update",), ("restore",), ("update",)],
+    [("clear", "n0"), ("update",)],
+    [("clear", "n1"), ("targeted", "n2_log_prob")],
+]
+
+
 def bounded(tier, seed):
     rng = random.Random(seed)
     col = util.Collector()
     n_graphs, n_hist, length = (12, 4, 6) if tier == "quick" else (150, 12, 7)
+    for sc in SCRIPTS:
+        try:
+            col.add(run_history(col, rng, JoinSpec(), 0, script=sc))
+        except Exception as e:
+            col.add({"sig": f"native::coherence::exception::{type(e).__name__}", "what": f"{type(e).__name__}: {str(e)[:200]}", "input": {"graph": JoinSpec().nodes, "script": sc}})
     for gi in range(n_graphs):
         spec = Spec(rng)
         for hi in range(n_hist):
@@ -166,9 +199,9 @@ def bounded(tier, seed):
             except Exception as e:
                 col.add({"sig": f"native::coherence::exception::{type(e).__name__}", "what": f"{type(e).__name__}: {str(e)[:200]}", "input": {"graph": spec.nodes}})
     return {"evaluations": col.evals, "distinct_nontrivial": col.evals,
-            "rule": (f"BOUNDED: {n_graphs} seeded random DAGs (1-3 strong variables with or without a distribution, 1-4 further nodes out of cached Calc, transient Calc, weak variable, weak "
+            "rule": (f"BOUNDED: {len(SCRIPTS)} scripted histories on a join-shaped graph (outdated nodes left behind while auto-update is on again, then an assignment to a non-ancestor); {n_graphs} seeded random DAGs (1-3 strong variables with or without a distribution, 1-4 further nodes out of cached Calc, transient Calc, weak variable, weak "
                      f"variable with distribution, bare Value node; 1-2 parents each) x {n_hist} random histories of {length} operations (assign, toggle auto-update, full update, targeted "
-                     "update of a random node, save, restore) on the real model; call counters in every node function; after every operation every up-to-date node is compared with a "
+                     "update of a random node, Node.clear_state() of a random caching node, save, restore) on the real model; call counters in every node function; after every operation every up-to-date node is compared with a "
                      f"from-scratch rebuild at the current input values. seed={seed}"),
             "samples": [{"graph": [["strong", "s0", [], True], ["weakdist", "n0", ["s0"], 4]], "history": [["auto_update", False], ["assign", "s0", 1.5], ["update", "n0_log_prob"]]}],
             "exhaustive": False, "violations": col.violations}
